@@ -44,4 +44,15 @@ CHECKS = {
         "note": "Trusted: reference model; bounded to the scene lattice. Support evaluations are counted through instance-level wrappers (budget 2000).",
         "technique": "bounded-exhaustive scene-lattice exploration of the real gjk.gjk vs reference model (constructed truth + separating-plane certificate)",
     },
+    "C05": {
+        "text": ("Explicit-state search over insertion histories of the real AabbTree: every history of <= 2 operations over a "
+                 "400-operation alphabet (single inserts, batches of size 0-3 of touching/nested/zero-volume/duplicate lattice boxes, "
+                 "modes none/sort/shuffle with EVERY permutation through an RNG seam, with/without payload) and of <= 3 operations "
+                 "over a reduced alphabet; canonical-state de-duplication; in every state structural invariants, 14 box queries and "
+                 "tree-vs-tree queries against 6 reference trees (incl. the empty tree, both directions) are compared with a "
+                 "list-of-boxes model; the reduced search is repeated under NUMBA_BOUNDSCHECK=1 and interpreted."),
+        "design_ref": "DESIGN.md 5 C05",
+        "note": "Trusted: the list-of-boxes model; canonical form = the public arrays and lists (the class has no other state).",
+        "technique": "explicit-state model checking of operation histories on the real code vs reference model, crash/hang isolation in a fork sandbox",
+    },
 }
